@@ -57,6 +57,10 @@ Return == /\ Ev.ev = "return"
                 /\ Ev.action = c.act /\ Ev.log_prob = c.lp /\ Ev.raw_action = c.raw /\ Ev.nextras = 2
           /\ pc' = "idle" /\ UNCHANGED c
 
-TraceNext == Adv /\ (Call \/ ApplyCall \/ Preprocess \/ ApplyRet \/ Mode \/ Sample \/ LogProb \/ Postprocess \/ Return)
+\* any other member of the distribution may be used on the way (the recorder logs it); what is constrained is which VALUE
+\* reaches log_prob, postprocess and the caller
+Other == Ev.ev = "other" /\ UNCHANGED <<pc, c>>
+
+TraceNext == Adv /\ (Call \/ ApplyCall \/ Preprocess \/ ApplyRet \/ Mode \/ Sample \/ LogProb \/ Postprocess \/ Return \/ Other)
 Progress == Reached(tid, l)
 =====================================================================================
